@@ -182,12 +182,22 @@ Section Group.
       destruct (nth_error kids i); [|discriminate]. eapply IH; eauto.
   Qed.
 
-  (* Document.paths_from_group(element) for a group that has children *)
-  Theorem paths_from_group_is_ref (root : node) target tf c kids Manc :
-    subtree_at N root target (mI N) = Some (Group tf (c :: kids), Manc) ->
-    Permutation (paths_from_group N root target) (flatten_ref N (Group tf (c :: kids)) Manc).
+  (* Document.paths_from_group(element): pinned code, for a group that has children *)
+  Theorem paths_from_group_is_ref c (root : node) target tf ch kids Manc :
+    subtree_at N root target (mI N) = Some (Group tf (ch :: kids), Manc) ->
+    Permutation (paths_from_group N c root target) (flatten_ref N (Group tf (ch :: kids)) Manc).
   Proof.
     intros Hs. unfold paths_from_group. rewrite (subtree_node_at _ _ _ _ _ Hs).
-    apply (from_group_is_ref root target _ _ Hs). exact I.
+    destruct (f_group_empty c); apply (from_group_is_ref root target _ _ Hs); exact I.
+  Qed.
+
+  (* repaired: for every group, with or without children *)
+  Theorem paths_from_group_is_ref_repaired c (root : node) target g Manc :
+    f_group_empty c = true ->
+    subtree_at N root target (mI N) = Some (g, Manc) -> is_group g ->
+    Permutation (paths_from_group N c root target) (flatten_ref N g Manc).
+  Proof.
+    intros Hc Hs Hg. unfold paths_from_group. rewrite Hc.
+    apply (from_group_is_ref root target _ _ Hs Hg).
   Qed.
 End Group.
